@@ -1,5 +1,5 @@
 (** Small list toolkit shared by the models: slices, sums, products. *)
-From Coq Require Import List Arith Lia.
+From Coq Require Import List Arith Lia Bool.
 Import ListNotations.
 
 Definition slice {A} (l : list A) (a b : nat) : list A := firstn (b - a) (skipn a l).
@@ -80,3 +80,35 @@ Proof. apply mapi_from_length. Qed.
 
 Lemma nth_mapi {A B} (f : nat -> A -> B) l k d d' : k < length l -> nth k (mapi f l) d' = f k (nth k l d).
 Proof. intros H. unfold mapi. now rewrite (nth_mapi_from f l 0 k d d' H). Qed.
+
+(** np.where(v == x)[0] : ascending positions holding x *)
+Fixpoint where_from (names : list nat) (x i : nat) : list nat :=
+  match names with
+  | [] => []
+  | y :: r => if Nat.eqb y x then i :: where_from r x (S i) else where_from r x (S i)
+  end.
+Definition where_eq names x := where_from names x 0.
+
+
+Lemma in_where_from names x : forall i q,
+  In q (where_from names x i) <-> exists k, q = i + k /\ k < length names /\ nth k names 0 = x.
+Proof.
+  induction names as [|y r IH]; intros i q; simpl.
+  - split; [tauto| intros (k & _ & H & _); lia].
+  - destruct (Nat.eqb_spec y x) as [E|E]; simpl; rewrite IH; split.
+    + intros [H|(k & -> & Hk & Hn)].
+      * exists 0. subst. split; [lia|]. split; [lia|reflexivity].
+      * exists (S k). split; [lia|]. split; [lia|exact Hn].
+    + intros (k & -> & Hk & Hn). destruct k as [|k]; [left; lia|]. right. exists k. split; [lia|]. split; [lia|exact Hn].
+    + intros (k & -> & Hk & Hn). exists (S k). split; [lia|]. split; [lia|exact Hn].
+    + intros (k & -> & Hk & Hn). destruct k as [|k]; [congruence|]. exists k. split; [lia|]. split; [lia|exact Hn].
+Qed.
+
+
+Lemma existsb_eqb_in i l : existsb (Nat.eqb i) l = true <-> In i l.
+Proof.
+  rewrite existsb_exists. split.
+  - intros (x & Hx & E). apply Nat.eqb_eq in E. now subst.
+  - intros H. exists i. split; [exact H| apply Nat.eqb_refl].
+Qed.
+
